@@ -43,22 +43,28 @@ Lemma join_gen_inv leb prune inputs j :
   exists m0 rest,
     map snd (sorted_gen leb inputs) = m0 :: rest
     /\ j_order j = map fst (sorted_gen leb inputs)
-    /\ j_feats j = fst (prune_all prune (py_sorted Z.leb (m_innate m0)) rest)
+    /\ j_feats j
+       = sort_dedup (fst (prune_all prune (py_sorted Z.leb (m_innate m0)) rest))
     /\ join_files (acq_time8 m0) (m0 :: rest)
                   (map (fun f => (f, [])) (j_feats j)) = Ok (j_cols j)
     /\ j_logs j = [(0, 0); (0, 1)]
                   ++ (if snd (prune_all prune (py_sorted Z.leb (m_innate m0)) rest)
                       then [(0, 2)] else [])
-                  ++ source_logs 1 (m0 :: rest).
+                  ++ source_logs 1 (m0 :: rest)
+    /\ (j_date j = m_date m0 /\ j_time j = m_time m0
+        /\ j_sample j = m_sample m0 /\ j_run j = JOIN_RUN_INDEX
+        /\ j_count j = event_count (j_cols j)).
 Proof.
   unfold join_gen, sorted_gen, tagged_leb. cbv zeta.
   destruct (map snd (py_sorted _ (tag_from 0 inputs))) as [|m0 rest] eqn:E;
     [discriminate|].
   destruct (prune_all prune (py_sorted Z.leb (m_innate m0)) rest)
     as [feats warn] eqn:Ep.
-  destruct (join_files (acq_time8 m0) (m0 :: rest) (map (fun f => (f, [])) feats))
+  destruct (join_files (acq_time8 m0) (m0 :: rest)
+                       (map (fun f => (f, [])) (sort_dedup feats)))
     as [cols|e] eqn:Ej; [|discriminate].
-  intros [= <-]. exists m0, rest. cbn [j_order j_feats j_cols j_logs].
+  intros [= <-]. exists m0, rest.
+  cbn [j_order j_feats j_cols j_logs j_date j_time j_sample j_run j_count].
   rewrite Ep. cbn [fst snd]. repeat split; auto.
 Qed.
 
@@ -98,8 +104,9 @@ Proof.
   intros H. apply join_gen_inv in H.
   destruct H as [m0 [rest [Hs [_ [Hf _]]]]].
   exists m0, rest. split; [assumption|]. intros Hnd.
-  rewrite Hf. unfold spec_features. apply prune_all_fixed.
-  now apply py_sorted_NoDup.
+  rewrite Hf. rewrite prune_all_fixed by now apply py_sorted_NoDup.
+  unfold spec_features. apply sort_dedup_id.
+  apply StronglySorted_filter. now apply py_sorted_strict.
 Qed.
 
 (* ---- columns ------------------------------------------------------------- *)
@@ -357,9 +364,10 @@ Proof.
     apply prune_all_fixed. apply py_sorted_NoDup.
     inversion Hwf' as [|? ? [Hnd _] _]; assumption. }
   destruct (join_files_ok (acq_time8 m0) (m0 :: rest)
-                          (map (fun f => (f, [])) feats)) as [cols Hc].
+                          (map (fun f => (f, [])) (sort_dedup feats)))
+    as [cols Hc].
   - intros m f Hm Hf. rewrite map_map in Hf. cbn [fst] in Hf. rewrite map_id in Hf.
-    subst feats. unfold spec_features in Hf. apply filter_In in Hf.
+    apply (proj1 (sort_dedup_In _ _)) in Hf. subst feats. unfold spec_features in Hf. apply filter_In in Hf.
     destruct Hf as [Hf0 Hall].
     assert (Hinn : In f (m_innate m0)).
     { eapply Permutation_in; [apply py_sorted_perm|exact Hf0]. }
@@ -375,6 +383,55 @@ Proof.
         rewrite Forall_forall in Hall0. now apply leb_num_time, Hall0. }
       nia.
   - rewrite Hc. eauto.
+Qed.
+
+(* ---- metadata --------------------------------------------------------------- *)
+Lemma data_spec_length m ti f old :
+  length (data_spec m ti f old) = length (getcol f m).
+Proof.
+  unfold data_spec.
+  destruct (kind f =? 1); [apply map_length|].
+  destruct (kind f =? 2); [apply map_length|].
+  destruct (kind f =? 3); [apply map_length|].
+  destruct (kind f =? 4); [|reflexivity].
+  now rewrite map_length, seq_length.
+Qed.
+
+Lemma final_col_length t0 f ms :
+  forall old, len (final_col t0 f ms old)
+              = len old + fold_right Z.add 0 (map (fun m => len (getcol f m)) ms).
+Proof.
+  unfold final_col. induction ms as [|m r IH]; intros old;
+    cbn [fold_left map fold_right]; [lia|].
+  rewrite IH, app_length, data_spec_length. lia.
+Qed.
+
+(* date, time and sample of the output are those of the earliest input, the
+   run index is the one given to join (default 1), the event count is the
+   number of events of all inputs together (counted on the first exported
+   feature) *)
+Theorem join_meta_from_earliest inputs j :
+  join_fixed inputs = Ok j ->
+  exists m0 rest,
+    map snd (sorted_gen leb_num inputs) = m0 :: rest
+    /\ j_date j = m_date m0 /\ j_time j = m_time m0
+    /\ j_sample j = m_sample m0 /\ j_run j = 1
+    /\ Forall (fun m => acq_time8 m0 <= acq_time8 m) (m0 :: rest)
+    /\ forall f fs, j_feats j = f :: fs ->
+         j_count j
+         = fold_right Z.add 0 (map (fun m => len (getcol f m)) (m0 :: rest)).
+Proof.
+  intros H. pose proof (join_gen_inv _ _ _ _ H) as Hinv.
+  destruct Hinv as [m0 [rest [Hs [_ [_ [Hj [_ [Hd [Ht [Hsa [Hr Hc]]]]]]]]]]].
+  exists m0, rest. repeat split; auto.
+  - destruct (join_order_chronological inputs) as [_ [Hsorted _]].
+    apply (StronglySorted_map_snd (fun a b => leb_num a b = true)) in Hsorted.
+    rewrite Hs in Hsorted. inversion Hsorted as [|? ? _ Hall]; subst.
+    constructor; [lia|]. eapply Forall_impl; [|exact Hall].
+    intros m. apply leb_num_time.
+  - intros f fs Hfs. rewrite Hc. apply join_files_spec in Hj.
+    rewrite Hj, Hfs. cbn [map fst snd event_count].
+    rewrite final_col_length. reflexivity.
 Qed.
 
 (* ---- logs ------------------------------------------------------------------ *)
@@ -405,7 +462,7 @@ Theorem join_logs_retained inputs j :
     In (1 + Z.of_nat i, lg) (j_logs j).
 Proof.
   intros H i m lg Hn Hlg. apply join_gen_inv in H.
-  destruct H as [m0 [rest [Hs [_ [_ [_ Hl]]]]]].
+  destruct H as [m0 [rest [Hs [_ [_ [_ [Hl _]]]]]]].
   rewrite Hl. apply in_or_app. right. apply in_or_app. right.
   rewrite <- Hs. eapply source_logs_In; eauto.
 Qed.
@@ -522,7 +579,9 @@ Qed.
 Example join_fixed_ex :
   enc_join (join_fixed w_prune)
   = [0; 2; 0; 1; 2; 10; 40; 10; 2; 1; 5; 40; 2; 4; 6;
-     5; 0; 0; 0; 1; 0; 2; 1; 1000000; 2; 1000000].
+     5; 0; 0; 0; 1; 0; 2; 1; 1000000; 2; 1000000;
+     10; 50; 48; 50; 52; 45; 48; 51; 45; 48; 53;
+     8; 49; 50; 58; 48; 48; 58; 48; 48; 0; 1; 2].
 Proof. vm_compute. reflexivity. Qed.
 
 Example wf_ex : Forall wf_meas w_sort.
